@@ -149,6 +149,8 @@ func corpus() []corpusFile {
 		// an element that declares no properties: its rows occupy no bytes, so its count is all that bounds the work
 		{"ply-ascii-propertyless-element", "ply", false, []byte("ply\nformat ascii 1.0\nelement marker 1\nelement vertex 3\nproperty float x\nproperty float y\nproperty float z\nelement face 1\nproperty list uchar int vertex_index\nend_header\n\n0 0 0\n1 0 0\n0 1 0.5\n3 0 1 2\n")},
 		{"ply-le-propertyless-element", "ply", true, append([]byte("ply\nformat binary_little_endian 1.0\nelement marker 2\nelement tail 1\nproperty uchar u\nend_header\n"), 7)},
+		{"ply-be-propertyless-last-element", "ply", true, append([]byte("ply\nformat binary_big_endian 1.0\nelement head 1\nproperty uchar u\nelement marker 2\nend_header\n"), 7)},
+		{"ply-le-propertyless-only-element", "ply", true, []byte("ply\nformat binary_little_endian 1.0\nelement marker 3\nend_header\n")},
 		{"csv", "csv", false, csv},
 		// a valid coloured PLY with one more element whose properties reuse the names x and red with other types
 		{"ply-ascii-extra-element", "ply", false, []byte(plyExtra)},
